@@ -159,7 +159,7 @@ func c06Keyfunc(c *core.Ctx, rule, cons string, f *flow.Func, parse *ast.CallExp
 		}
 		return true
 	})
-	res := analyze(c, kf, flow.Config{NoHavoc: true})
+	res := analyze(c, kf, flow.Config{NoHavoc: true, OnNode: func(st *flow.State, n ast.Node) { c06TrackNonNil(kf, st, n) }})
 	if res == nil {
 		return
 	}
@@ -170,15 +170,16 @@ func c06Keyfunc(c *core.Ctx, rule, cons string, f *flow.Func, parse *ast.CallExp
 		if ex.Kind != flow.ExitReturn {
 			continue
 		}
-		if ex.Return == nil || len(ex.Return.Results) != 2 {
+		rs := c06Results(kf, ex)
+		if len(rs) != 2 {
 			c.Undecide(rule, cons, pos(c, ex.At), "a return of the key function does not list (key, error)")
 			return
 		}
-		keyExpr := ex.Return.Results[0]
+		keyExpr := rs[0]
 		if c06ReturnedNilness(kf, ex.State, keyExpr) == flow.True {
 			continue
 		}
-		if c06ReturnedNilness(kf, ex.State, ex.Return.Results[1]) == flow.False {
+		if c06ReturnedNilness(kf, ex.State, rs[1]) == flow.False {
 			continue // an error is returned: the parser rejects the token whatever the key
 		}
 		keyReturns++
@@ -289,6 +290,7 @@ func c06ParseVerdict(c *core.Ctx, rule, name string, f *flow.Func, parse *ast.Ca
 			}
 		},
 		OnNode: func(st *flow.State, n ast.Node) {
+			c06TrackNonNil(f, st, n)
 			// a later assignment to the error variable detaches it from the parser's verdict
 			as, ok := n.(*ast.AssignStmt)
 			if !ok {
@@ -312,7 +314,8 @@ func c06ParseVerdict(c *core.Ctx, rule, name string, f *flow.Func, parse *ast.Ca
 		if ex.Kind != flow.ExitReturn {
 			continue
 		}
-		if ex.Return == nil || len(ex.Return.Results) != 1 {
+		rs := c06Results(f, ex)
+		if len(rs) != 1 {
 			c.Undecide(rule, cons, pos(c, ex.At), "a return without an explicit result")
 			return
 		}
@@ -320,7 +323,7 @@ func c06ParseVerdict(c *core.Ctx, rule, name string, f *flow.Func, parse *ast.Ca
 		if bad != nil {
 			continue
 		}
-		r := ex.Return.Results[0]
+		r := rs[0]
 		st := ex.State
 		parsed := st.Is("ev:parsed", flow.True)
 		if errObjs[c06Obj(f, r)] && parsed && st.Is("ev:errfresh", flow.True) {
